@@ -254,3 +254,85 @@ def viable_prefix(tokens, start="TopDocument", allow_type_system=False, fragment
         if not r.feed(t):
             return False
     return True
+
+
+# ---------------------------------------------------------------------------------------------
+# Sentence generation: one witness text per EXPANDED production alternative (every combination of
+# optional parts of every production), embedded in a shortest context from the start symbol.
+_TERMINAL_TEXT = {"NAME": "a", "NAME_NOT_ON": "a", "ENUM_NAME": "a", "INT": "1", "FLOAT": "1.5", "STR": '"s"', "DIR_LOC": "QUERY", "EOF": None, "NOT_LBRACE": None}
+
+
+def _term_text(sym):
+    if sym[0] in "'\"":
+        return sym[1:-1]
+    return _TERMINAL_TEXT[sym]
+
+
+def sentences(start="TopDocument", allow_type_system=False, fragment_variables=False):
+    """-> sorted list of token-text lists (joined by the caller); every one is in the language (checked by the recogniser)"""
+    rules = compile_grammar(allow_type_system, fragment_variables)
+    INF = 10 ** 9
+    best = {}          # nonterminal -> shortest yield (list of token texts)
+
+    def yield_of(rhs):
+        out = []
+        for s in rhs:
+            if is_terminal(s):
+                t = _term_text(s)
+                if t is not None:
+                    out.append(t)
+            else:
+                if s not in best:
+                    return None
+                out.extend(best[s])
+        return out
+    changed = True
+    while changed:
+        changed = False
+        for lhs, alts in rules.items():
+            for rhs in alts:
+                y = yield_of(rhs)
+                if y is not None and (lhs not in best or len(y) < len(best[lhs])):
+                    best[lhs] = y
+                    changed = True
+    ctx = {start: ([], [])}
+    work = [start]
+    while work:
+        a = work.pop(0)
+        pre_a, suf_a = ctx[a]
+        for rhs in rules.get(a, []):
+            for i, s in enumerate(rhs):
+                if is_terminal(s):
+                    continue
+                left, right = yield_of(rhs[:i]), yield_of(rhs[i + 1:])
+                if left is None or right is None:
+                    continue
+                c = (pre_a + left, right + suf_a)
+                if s not in ctx or len(c[0]) + len(c[1]) < len(ctx[s][0]) + len(ctx[s][1]):
+                    ctx[s] = c
+                    work.append(s)
+    out = set()
+    for n, (pre, suf) in ctx.items():
+        for rhs in rules.get(n, []):
+            y = yield_of(rhs)
+            if y is not None:
+                out.add(tuple(pre + y + suf))
+    return sorted(out)
+
+
+def sentence_texts():
+    """(entry, text) for every entry point / flag set; only texts the recogniser accepts (lookahead-restricted alternatives may drop out)"""
+    res = []
+    for entry, kw in (("document", dict()), ("document_fragvars", dict(fragment_variables=True)), ("document_ts", dict(allow_type_system=True)),
+                      ("value", dict(start="TopValue")), ("type", dict(start="TopType"))):
+        for toks in sentences(**kw):
+            text = " ".join(toks)
+            res.append((entry, text))
+    # de-duplicate texts that several entries share, keeping the first entry
+    seen, out = set(), []
+    for e, t in res:
+        if (e.split("_")[0], t) in seen and e != "document_ts":
+            continue
+        seen.add((e.split("_")[0], t))
+        out.append((e, t))
+    return out
